@@ -31,4 +31,4 @@ require (
 	google.golang.org/protobuf v1.36.5 // indirect
 )
 
-replace github.com/high-moctane/mocrelay => /tmp/seedwt
+replace github.com/high-moctane/mocrelay => /repo
